@@ -229,6 +229,21 @@ def c17_6(ctx):
     ctx.check(ok, 'dirs:canonical-path-kept', eng.site(apps[0]) if apps else eng.site(),
               'the directory kept for a group of duplicates is the real path they share, so the paths shown in outputs do not depend on the order or spelling of -I options',
               '; '.join(unparse(c) for c in apps) or 'no recognised collection of kept directories')
+    # the main file is known to the included-twice test under the spelling an #include of it would produce
+    ld_ = [n for n, _ in calls_to(ctx, eng, {LOAD})]
+    ok = len(ld_) == 1
+    if ok:
+        lo_ = ctx.repo.func(LOAD)
+        up = next((p_ for p_ in lo_.param_names if 'files_used' in p_), None)
+        a_ = bind_args(ld_[0], lo_).get(up)
+        d_ = deref(ctx, eng, a_, ld_[0]) if a_ is not None else None
+        ok = isinstance(d_, ast.Set) and len(d_.elts) == 1
+        if ok:
+            e_ = deref(ctx, eng, d_.elts[0], ld_[0])
+            ok = unparse(e_) == 'os.path.join(os.path.realpath(os.path.dirname(self._source_file)), os.path.basename(self._source_file))'
+    ctx.check(ok, 'include:main-file-known-as-included', eng.site(ld_[0]) if ld_ else eng.site(),
+              'the main source is registered as <real path of its directory>/<its name>, the spelling under which an #include would locate it',
+              'the set of loaded files starts without the main file in that spelling: a main file given by a relative path can include itself')
     asm = [c for c in ast.walk(eng.node) if isinstance(c, ast.Call) and unparse(c.func) == 'AssemblyFile']
     ok = len(asm) == 1 and unparse(asm[0].args[0]) == 'self._source_file'
     ld = [n for n, _ in calls_to(ctx, eng, {LOAD})]
@@ -255,6 +270,7 @@ RULES = [c17_1, c17_3, c17_5, c17_6, c17_state, c17_labels]
 
 _A = 'assembler/assembly_file.py'
 MUTANTS = [
+    V('c17-main-file-not-registered', 'assembler/engine.py', "            self._verbose,\n            assembly_files_used={main_file_as_included},\n", "            self._verbose,\n", 'C17.6'),
     V('c17-filename-canonicalised-on-one-side', 'assembler/assembly_file.py', "        self._filename = filename\n", "        self._filename = os.path.realpath(filename)\n", 'C17.1'),
     V('c17-condition-stack-handed-down', 'assembler/assembly_file.py', "                condition_stack = ConditionStack()\n", "                condition_stack = getattr(preprocessor, '_stack_of_includer', None) or ConditionStack()\n", 'C17.5'),
     V('c17-include-name-with-slash', 'assembler/assembly_file.py', "([\\w\\.\\-\\_]+)(?:\\'|\\\")',", "([\\w\\.\\-\\_/]+)(?:\\'|\\\")',", 'C17.1'),
